@@ -451,6 +451,77 @@ func monC08(c *drv.Ctx) {
 		cs.C.Obs("template runs judged", 1)
 	})
 
+	// (4f) one bytes-backed decoder handed several values in a row: after it has returned some, a value that is cut
+	// short by the end of the slice is still rejected - also when the slice is a view with live bytes behind it
+	c.Stage("bytes-decoder-sequences", c.Pick(6000, 120000), false, func(cs *drv.Case) {
+		r := cs.R
+		n := 1 + r.Intn(4)
+		var in []byte
+		var ts []byte
+		for k := 0; k < n; k++ {
+			t := types[r.Intn(len(types))]
+			v := gen.Tree(r, t, gen.TreeOpts{MaxDepth: 2, MaxElems: 4, NoBigCounts: true}, 0)
+			in = v.Encode(in)
+			ts = append(ts, t)
+		}
+		// the last value: cut short, or whole
+		t := []byte{ref.STRING, ref.LIST, ref.MAP, ref.STRUCT, ref.SET, ref.I64}[r.Intn(6)]
+		v := gen.Tree(r, t, gen.TreeOpts{MaxDepth: 2, MaxElems: 4, NoBigCounts: true}, 0)
+		last := v.Encode(nil)
+		whole := last
+		if r.Intn(3) > 0 {
+			last = last[:r.Intn(len(last))]
+		}
+		in = append(in, last...)
+		ts = append(ts, t)
+		var view []byte
+		if r.Intn(2) == 0 {
+			view = place(in, 0)
+		} else {
+			// a view: what follows it in memory is exactly what the cut took away, then more plausible bytes
+			blk := append(append(append([]byte(nil), in...), whole[len(last):]...), whole...)
+			view = blk[:len(in)]
+		}
+		d := thrift.NewBytesSkipDecoder(view)
+		defer d.Release()
+		cs.Desc = M{"values": len(ts), "input_hex": hexOf(in), "last_cut_to": len(last), "last_len": len(whole)}
+		pos := 0
+		for k, t := range ts {
+			pr := ref.Parse(in[pos:], t)
+			if pr.TooDeep || pr.DontCare || pr.MaxNesting >= 64 {
+				return
+			}
+			var out []byte
+			var err error
+			func() {
+				defer func() {
+					if p := recover(); p != nil {
+						err = fmt.Errorf("panic: %v", p)
+						cs.Fail("skip-panic", M{"skipper": "BytesSkipDecoder, later value"}, M{"value_index": k, "panic": fmt.Sprint(p)})
+					}
+				}()
+				out, err = d.Next(thrift.TType(t))
+			}()
+			switch {
+			case pr.OK && err != nil:
+				cs.Fail("skip-rejected-wellformed", M{"skipper": "BytesSkipDecoder, later value"}, M{"value_index": k, "err": errString(err)})
+				return
+			case pr.OK && !bytes.Equal(out, in[pos:pos+pr.N]):
+				cs.Fail("skip-wrong-extent", M{"skipper": "BytesSkipDecoder, later value"}, M{"value_index": k, "got_len": len(out), "want_len": pr.N})
+				return
+			case !pr.OK && err == nil:
+				cs.Fail("skip-accepted-malformed", M{"skipper": "BytesSkipDecoder, later value", "causes": causeNames(pr.Causes)}, M{"value_index": k, "message": fmt.Sprintf("value #%d, cut short by the end of the slice, was accepted with %d bytes", k, len(out))})
+				return
+			}
+			if !pr.OK {
+				cs.C.Obs("cut-short later values rejected by the bytes decoder", 1)
+				break
+			}
+			pos += pr.N
+		}
+		cs.Count(true, hexOf(in), len(ts))
+	})
+
 	// (4b'') a struct walked field by field by the application: the field headers taken with the exported SkipN of
 	// the decoder, each field value with Next - which returns that value and nothing else
 	c.Stage("field-walk-with-skipn", c.Pick(4000, 80000), false, func(cs *drv.Case) {
